@@ -201,16 +201,32 @@ def minv(m):
 
 
 class NPRandom:
+    """NumPy's global generator as an abstract stream state: ("caller", k) -- whatever the caller left, advanced by k draws --
+    or ("seeded", s, k) -- seed(s) followed by k draws; get_state / set_state save and restore it"""
     count = 0
+    STATE = ("caller", 0)
 
     def seed(self, s=None):
         used("np.random.seed")
         EFFECTS.append(("np.random.seed", s))
+        NPRandom.STATE = ("seeded", s, 0)
+
+    def get_state(self, *a, **k):
+        used("np.random.get_state")
+        return ("<rng-state>", NPRandom.STATE)
+
+    def set_state(self, st):
+        used("np.random.set_state")
+        if not (isinstance(st, tuple) and len(st) == 2 and st[0] == "<rng-state>"):
+            raise ModelError("np.random.set_state with a state that does not come from get_state")
+        NPRandom.STATE = st[1]
+        EFFECTS.append(("np.random.set_state", st[1]))
 
     def normal(self, loc=0.0, scale=1.0, size=None):
         used("np.random.normal")
         NPRandom.count += 1
-        EFFECTS.append(("np.random.normal", NPRandom.count))
+        EFFECTS.append(("np.random.normal", NPRandom.count, NPRandom.STATE))
+        NPRandom.STATE = NPRandom.STATE[:-1] + (NPRandom.STATE[-1] + 1,)
         name = "rand%d" % NPRandom.count
         if size is None:
             return T.sym(name)
@@ -423,11 +439,20 @@ class NP:
                 T.side("pos", Poly.const(0), "log of a non-positive constant")
                 return -math.inf
             return math.log(x)   # constants are evaluated by CPython
-        return ewise(_user_log, lift(x))
+        x = lift(x)
+        if getattr(x, "lse", None) == ("safe",):
+            # log Σ_k exp(a_k - max_k a_k): the sum is >= 1 (the term at the maximum is exp(0)), no underflow hazard
+            return ewise(lambda a: T.mk_log(P(a)), x)
+        return ewise(_user_log, x)
 
     def exp(self, x):
         used("np.exp")
-        return ewise(lambda a: T.mk_exp(P(a)), lift(x))
+        x = lift(x)
+        r = ewise(lambda a: T.mk_exp(P(a)), x)
+        tag = getattr(x, "lse", None)
+        if tag and tag[0] == "shifted" and isinstance(r, Arr):
+            r.lse = ("expshift", tag[1])
+        return r
 
     def sqrt(self, x):
         used("np.sqrt")
@@ -438,6 +463,35 @@ class NP:
         return ewise(lambda a: T.mk_abs(P(a)), lift(x))
 
     absolute = abs
+
+    def _cmp_ufunc(self, name, op, a, b):
+        used("np." + name)
+        a, b = lift(a), lift(b)
+        if not isinstance(a, Arr) and not isinstance(b, Arr):
+            return T.cmp_cond(op, P(a), P(b))
+        if not isinstance(a, Arr):
+            flip = {"<": ">", "<=": ">=", ">": "<", ">=": "<=", "==": "==", "!=": "!="}[op]
+            return self._cmp_ufunc(name, flip, b, a)
+        import operator as _o
+        return {"<": _o.lt, "<=": _o.le, ">": _o.gt, ">=": _o.ge, "==": _o.eq, "!=": _o.ne}[op](a, b)
+
+    def less(self, a, b):
+        return self._cmp_ufunc("less", "<", a, b)
+
+    def less_equal(self, a, b):
+        return self._cmp_ufunc("less_equal", "<=", a, b)
+
+    def greater(self, a, b):
+        return self._cmp_ufunc("greater", ">", a, b)
+
+    def greater_equal(self, a, b):
+        return self._cmp_ufunc("greater_equal", ">=", a, b)
+
+    def equal(self, a, b):
+        return self._cmp_ufunc("equal", "==", a, b)
+
+    def not_equal(self, a, b):
+        return self._cmp_ufunc("not_equal", "!=", a, b)
 
     def reciprocal(self, x, dtype=None, **kw):
         used("np.reciprocal")
@@ -464,6 +518,8 @@ class NP:
 
     def subtract(self, a, b, dtype=None, **kw):
         used("np.subtract")
+        if isinstance(a, Arr) and isinstance(b, Arr) and dtype is None and not kw:
+            return a - b
         return ewise(lambda x, y: P(x) - P(y), lift(a), lift(b), arith="subtract", dtype="real" if A.floaty(dtype) else None)
 
     def divide(self, a, b):
